@@ -670,11 +670,21 @@ class bpch_base(PseudoNetCDFFile):
             weights = getinterpweights(
                 zs, nzs, kind=interptype, fill_value=fill_value,
                 extrapolate=extrapolate)
+            # Variables on a reduced layer dimension hold the lowest levels
+            # only; their weights come from those levels alone, so that they
+            # sum to one (edge value) for targets above the reduced top
+            reducedweights = {zs.shape[0]: weights}
+
             # Create a function for interpolation
 
             def interpsigma(data):
                 if data.ndim == 1:
-                    newdata = (weights[:data.shape[0]] * data[:, None]).sum(0)
+                    nk = data.shape[0]
+                    if nk not in reducedweights:
+                        reducedweights[nk] = getinterpweights(
+                            zs[:nk], nzs, kind=interptype,
+                            fill_value=fill_value, extrapolate=extrapolate)
+                    newdata = (reducedweights[nk] * data[:, None]).sum(0)
                 else:
                     newdata = (weights[None, :data.shape[0], :, None, None] *
                                data[:, :, None]).sum(1)
